@@ -85,10 +85,10 @@ class Step(Contract):
 
 
 def contracts():
-    return []
+    return [Step()]
 
 
-# fails on the unchanged tree (time-advanced-by-exactly-timestep), reproduced natively: candidate defect
-PARKED = [Step()]
-ASSUMPTIONS = ['System.step (parked): times are exact reals; solve returns its arguments with the trial replaced or raises; the recursive calls satisfy step\'s own contract']
-NOT_COVERED = ['System.step: the contract is PARKED because the unchanged tree violates it (a bisected time step restarts from the already advanced time, see notes/C14-methods.md)']
+# failed on the pinned commit (time-advanced-by-exactly-timestep: a bisected step restarted from the already advanced time); repaired by a fix: commit
+PARKED = []
+ASSUMPTIONS = ['System.step: times are exact reals; solve returns its arguments with the trial replaced or raises; the recursive calls satisfy step\'s own contract']
+NOT_COVERED = ['System.step: bounded scenario (one failing attempt per level, maxretry symbolic); termination of the bisection beyond maxretry is by the explicit counter']
